@@ -53,6 +53,15 @@ Definition strip_0x (s : str) : option str :=
 Definition strip_0b (s : str) : option str :=
   match s with c :: d :: t => if (c =? 48) && (d =? 98) then Some t else None | _ => None end.
 
+(* A sign stands before a number, never between the prefix and the digits (`from_str_radix` would read one):
+   `s.strip_prefix("0x").filter(|digits| !is_signed(digits))` - "0x-1F" keeps its prefix and is then no numeral *)
+Definition is_signed (s : str) : bool :=
+  match s with c :: _ => (c =? 43) || (c =? 45) | [] => false end.
+Definition unsigned_rest (o : option str) : option str :=
+  match o with Some t => if is_signed t then None else Some t | None => None end.
+Definition prefix_0x (s : str) : option str := unsigned_rest (strip_0x s).
+Definition prefix_0b (s : str) : option str := unsigned_rest (strip_0b s).
+
 Definition i32_min : Z := (-2147483648)%Z.
 Definition i32_max : Z := 2147483647%Z.
 Definition i128_min : Z := (-170141183460469231731687303715884105728)%Z.
